@@ -3,6 +3,7 @@ import re
 
 from hypothesis import strategies as st
 
+from vlib import rivals
 from vlib.core import Part, Violation, Discard, call
 
 from mitxgraders import (FormulaGrader, NumericalGrader, MatrixGrader, SumGrader, ListGrader, RandomFunction,
@@ -80,7 +81,9 @@ def decode(o):
 
 
 def build(g):
-    return decode(g)
+    grader = decode(g)
+    rivals.after_build(grader)     # vlib/rivals.py: a second grader of the same class is built and used first
+    return grader
 
 
 def grades_of(res):
